@@ -13,7 +13,7 @@ claimed = {
    note="Keys and digests are whatever the seeded workload draws (boundary-biased) - sampling, not enumeration over all d and digests. The x(R) >= n bit of the recovery id is unreachable for an honest signer (2^-128) and is not exercised."),
  "C14": dict(cat="exploration", ref="DESIGN.md section 4 (C14)",
    technique="deterministic simulation of the aux-randomness reader seam with fault injection; every signing event compared byte-for-byte with an independent BIP-340 model",
-   text="Entropy-source clause: every successful Schnorr Sign under every simulated aux-randomness device equals the BIP-340 reference signature on the 32 bytes actually delivered, verifies in model and library, consumes exactly 32 bytes, aborts on a read error before byte 32, never fails on a healthy device; Schnorr keys derived from ECDSA keys expose the even-y point, its x and the raw scalar.",
+   text="Entropy-source clause: every successful Schnorr Sign under every simulated aux-randomness device equals the BIP-340 reference signature on the 32 bytes actually delivered, verifies in model and library, consumes exactly 32 bytes, aborts on a read error before byte 32, never fails on a healthy device; Schnorr keys derived from ECDSA keys expose the even-y point, its x and the raw scalar. Key-derivation clause: in pool-world call histories every Schnorr key built from a byte string, an ECDSA key object or a pool point (after arbitrary arithmetic histories and re-randomised projective representatives, odd and even y) must expose the model's even-y point, its x coordinate and - sampled - produce the BIP-340 reference signature; Sign is called with every kind of opts value (documented as ignored) and messages of 0..200 bytes.",
    note="Key parity x nonce parity x message length are sampled (probes count them), not enumerated."),
 }
 
